@@ -175,7 +175,7 @@ impl Prop for C01 {
             let ops = OpSet::builtin();
             let name = format!("sweep{}", stage);
             for i in a..b {
-            out.idx = Some(i);
+            out.at(i);
                 let s = sw[stage].get(i);
                 check_string(&s, &name, out);
                 if let Ok(t) = lex(&s, &ops) {
@@ -194,7 +194,7 @@ impl Prop for C01 {
         if stage == sw.len() {
             let ts = token_seqs(tier);
             for i in a..b {
-                out.idx = Some(i);
+                out.at(i);
                 let s = ts.spaced(i);
                 check_string(&s, "tokens", out);
             }
@@ -205,7 +205,7 @@ impl Prop for C01 {
         if stage == sw.len() + 2 {
             let inputs = long_token_inputs(tier.pick(14, 17));
             for i in a..b {
-                out.idx = Some(i);
+                out.at(i);
                 let (name, text) = &inputs[i as usize];
                 // (the text can be 100 kB: the case is named by its shape and size)
                 let mut tmp = WorkerOut::default();
@@ -224,7 +224,7 @@ impl Prop for C01 {
         // ladder: one case per process
         let cases = ladder_cases(tier);
         for i in a..b {
-            out.idx = Some(i);
+            out.at(i);
             let (shape, n) = cases[i as usize];
             let input = ladder_input(shape, n as usize);
             let shape_s = shape.to_string();
